@@ -16,11 +16,11 @@ import (
 // AtCall is an assertion evaluated in the caller's scope right before the Ord-th call (source order, 1-based;
 // 0 = every call) of Callee (short key, e.g. "Server.setCaughtUp"); arg0, arg1, ... name the actual arguments.
 type AtCall struct {
-	Callee string
-	Ord    int
-	Cl     Clause
-	Assume bool // environment assumption (listed in the evidence) instead of an obligation
-	SetVar string // set-at-call: the ghost variable that receives the value of Cl at this point
+	Callee    string
+	Ord       int
+	Cl        Clause
+	Assume    bool   // environment assumption (listed in the evidence) instead of an obligation
+	SetVar    string // set-at-call: the ghost variable that receives the value of Cl at this point
 	Interfere string // "before" | "after": other threads run at this point (interfere-at-call / interfere-after-call)
 }
 
@@ -32,9 +32,10 @@ type Clause struct {
 }
 
 type LoopSpec struct {
-	Inv   []Clause
-	Entry []Clause // asserted when the loop is reached, not part of the invariant
-	Decr  *Clause
+	Inv    []Clause
+	Entry  []Clause // asserted when the loop is reached, not part of the invariant
+	OnStop []Clause // iterator loops: asserted in the state where the callback has just answered "stop"
+	Decr   *Clause
 }
 
 type GhostFunc struct {
@@ -570,6 +571,8 @@ func (sp *Specs) loadSpecFile(path, pkgPrefix string, assumed bool) error {
 				ls.Decr = &cl
 			case "entry":
 				ls.Entry = append(ls.Entry, cl)
+			case "on-stop":
+				ls.OnStop = append(ls.OnStop, cl)
 			default:
 				return fmt.Errorf("%s:%d: loop clause %q", path, l.ln, f[1])
 			}
